@@ -16,6 +16,9 @@ pub use self::interval::Interval;
 
 /// In place implementation of scan over a slice.
 pub fn scan<T: Copy, F: Fn(T, T) -> T>(a: &mut [T], op: F) {
+    if a.is_empty() {
+        return;
+    }
     let mut s = a[0];
     for v in a.iter_mut().skip(1) {
         s = op(s, *v);
